@@ -26,6 +26,10 @@ func init() {
 func runC08(w *World, r *Report) {
 	hrCleanAll(w, r, "R2")
 	hrRestoreBeforeFallbackReload(w, r, "R3")
+	hrPayloadDecodeErrorsReturned(w, r, "R5")
+	hrApplyFlowsWipesEverything(w, r, "R2")
+	// only what the new configuration no longer registers is un-managed (C14.R5)
+	r.Borrow(w, c14UnmanageSet, map[string]string{"R5": "R4"})
 	hrNotifyHubInBackground(w, r, "R4")
 	hrMetricsPathIsTheConfiguredFile(w, r, "R2")
 	hrKnownEndpointsAlwaysWritten(w, r, "R3")
